@@ -56,7 +56,7 @@ func genRun(g *hx.Gen, fam int) string {
 		n := 1 + g.Intn(4)
 		var hs []string
 		for i := 0; i < n; i++ {
-			hs = append(hs, g.Pick([]string{"reg", "rej", "rej", "gkey:1:-:0", "gkey:2:-:0", "gempty", "gerr:handlerGenCSR", "gerr:invalidParams", "gerr:handlerConf", "gerr:other", "npanic", "apanic", "gpanic", "gkey:1:x:0", "gkey:1:-:1", "gkey:0:-:0"}))
+			hs = append(hs, g.Pick([]string{"reg", "rej", "rej", "gkey:1:-:0", "gkey:2:-:0", "gempty", "gerr:handlerGenCSR", "gerr:invalidParams", "gerr:handlerConf", "gerr:other", "npanic", "apanic", "gpanic", "gkey:1:x:0", "gkey:1:-:1", "gkey:0:-:0", "gkeyn:1", "gkeyn:2"}))
 		}
 		f["hs"] = strings.Join(hs, "|")
 		if g.Bool() {
